@@ -7,7 +7,7 @@ Spec functions (one defining equation each; `pathattr`, `ignorecase`, `relax` ar
     FC(kids, j, name)    the first child among kids[:j] whose NAMEOF matches name (None if there is none)
     GN / GE(n0, ps, j)   node reached / error status (0 ok, 1 above root, 2 no such child) after the components ps[:j]
 """
-from z3 import (And, BoolVal, Const, Extract, ForAll, Function, If, Implies, Int, IntVal, Length, Not, Or, PrefixOf, StringVal)
+from z3 import (And, BoolVal, Const, Empty, Extract, ForAll, Function, If, Implies, Int, IntVal, Length, Not, Or, PrefixOf, StringVal)
 
 from pyvc.core import LoopSpec, V
 from pyvc.heap import B, I, NONE, R
@@ -102,7 +102,11 @@ def lemma_obligations():
 
 P8 = {"C08"}
 TRANS = Function("TRANS", Str, I, Str)         # translation of the pattern prefix pat[:j] into regex syntax
-GLOBRES = Function("GLOBRES", R, SeqStr, SeqR)  # result list of __glob (its contract is only bounded so far)
+GLOBRES = Function("GLOBRES", R, SeqStr, SeqR)  # strict-mode result list of __glob (bounded stand-in only)
+GL = Function("GL", R, SeqStr, SeqR)            # relaxed denotation: the nodes the remaining components denote from a node
+GLS = Function("GLS", SeqR, I, SeqStr, SeqR)    # '**': de-duplicated union over the subnodes subs[:j]
+GLK = Function("GLK", SeqR, I, Str, SeqStr, SeqR)   # name/wildcard component: over the matching children among kids[:j]
+DD = Function("DD", SeqR, SeqR, I, SeqR)        # acc extended by the elements of xs[:i] not yet present (identity)
 
 
 def d_TRANS(pat, j):
@@ -328,15 +332,121 @@ def build_glob(reg, specs, qs, SELF, fields):
     reg.methods[("Resolver", "_Resolver__match")] = sp
 
     # ------------------------------------------------------------------ glob = __start with the wildcard matcher, then __glob
-    gl = QSpec(reg, REL, "Resolver", "__glob", "method", [SELF, ("node", "ref"), ("parts", "strlist")],
-               lambda c: [Clause("node-is-not-None", c.node != NONE)], [
-        Outcome("return", "return", lambda c, S1, r: [], res="qseq", mods=(), value=lambda c: GLOBRES(c.node, c.parts)),
-        Outcome("ResolverError", "raise", lambda c, S1, r: [Clause("strict-only", Not(F.relax))], exc="ResolverError", mods=()),
-        Outcome("ChildResolverError", "raise", lambda c, S1, r: [Clause("strict-only", Not(F.relax))], exc="ChildResolverError", mods=()),
-        Outcome("RootResolverError", "raise", lambda c, S1, r: [Clause("strict-only", Not(F.relax))], exc="RootResolverError", mods=()),
-    ], props=P8)
-    gl.world = TEXTWORLD
-    reg.methods[("Resolver", "_Resolver__glob")] = gl      # assumed here (covered by the bounded stand-in), not verified
+    # ------------------------------------------------------------------ the recursive descent __glob / __find
+    # Relaxed mode (relax=True) is proved: the result is the denotation GL of the statement and nothing is raised.
+    # Strict mode: the result value / the raising condition are left to the bounded stand-in (GLOBRES uninterpreted, exceptions
+    # possible), only "exceptions occur in strict mode only" is proved.
+    from pyvc.seqworld import FALSEF, TRUEF
+    from contracts import iterators as IT
+    IT_reg, _ = IT.build()
+    reg.classes.update({k: v for k, v in IT_reg.classes.items() if k == "PreOrderIter"})
+    reg.classes["Resolver"] = None
+
+    def match_pure():
+        # for callers, __match is a pure function of (name, pattern, this resolver's ignorecase): that is exactly what the
+        # verified contract of __match (cache transparency) says
+        sp_ = QSpec(reg, REL, "Resolver", "__match", "method", [SELF, ("name", "str"), ("pat", "str")], lambda c: [], [
+            Outcome("return", "return", lambda c, S1, r: [], res="bool", mods=(), value=lambda c: wm(c.name, c.pat, F.ignorecase))], props=P8)
+        sp_.world = TEXTWORLD
+        return sp_
+    reg.methods_for_callers = {("Resolver", "_Resolver__match"): match_pure()}
+
+    def tail(ps):
+        return Extract(ps, 1, Length(ps) - 1)
+
+    def sub_of(n):
+        return IT.iterseq("PreOrderIter", n, TRUEF, FALSEF, BoolVal(False), IntVal(0))
+
+    def wmn(c_, name):
+        return wm(nameof(c_), name, F.ignorecase)
+
+    def d_DD(acc, xs, i):
+        from z3 import Contains, Concat, Unit
+        a = DD(acc, xs, i)
+        return [DD(acc, xs, 0) == acc,
+                Implies(And(0 <= i, i < Length(xs)), DD(acc, xs, i + 1) == If(Contains(a, Unit(xs[i])), a, Concat(a, Unit(xs[i]))))]
+
+    def d_GLS(subs, j, rem):
+        g = GL(subs[j], rem)
+        return [GLS(subs, 0, rem) == Empty(SeqR),
+                Implies(And(0 <= j, j < Length(subs)), GLS(subs, j + 1, rem) == DD(GLS(subs, j, rem), g, Length(g)))]
+
+    def d_GLK(kids, j, name, rem):
+        from z3 import Concat
+        return [GLK(kids, 0, name, rem) == Empty(SeqR),
+                Implies(And(0 <= j, j < Length(kids)),
+                        GLK(kids, j + 1, name, rem) == Concat(GLK(kids, j, name, rem), If(wmn(kids[j], name), GL(kids[j], rem), Empty(SeqR))))]
+
+    def d_GL(n, ps):
+        from z3 import Unit
+        name, rem = ps[0], tail(ps)
+        s_ = sub_of(n)
+        k_ = CH(n)
+        return [GL(n, ps) == If(Length(ps) == 0, Unit(n),
+                                If(name == S(".."), If(PAR(n) == NONE, Empty(SeqR), GL(PAR(n), rem)),
+                                   If(Or(name == S(""), name == S(".")), GL(n, rem),
+                                      If(name == S("**"), GLS(s_, Length(s_), rem), GLK(k_, Length(k_), name, rem)))))]
+    reg.glob_defs = (d_GL, d_GLS, d_GLK, d_DD, tail, sub_of)
+
+    def gl_outcomes(valuefn):
+        return [
+            Outcome("relaxed", "return", lambda c, S1, r: [Clause("is-the-denotation-of-the-remaining-components", r.t == valuefn(c), P8)],
+                    res="qseq", mods=(), when=lambda c: F.relax),
+            Outcome("strict", "return", lambda c, S1, r: [], res="qseq", mods=(), when=lambda c: Not(F.relax)),
+            Outcome("ResolverError", "raise", lambda c, S1, r: [Clause("strict-only", Not(F.relax), P8)], exc="ResolverError", mods=(), user=True),
+            Outcome("ChildResolverError", "raise", lambda c, S1, r: [Clause("strict-only", Not(F.relax), P8)], exc="ChildResolverError", mods=(), user=True),
+            Outcome("RootResolverError", "raise", lambda c, S1, r: [Clause("strict-only", Not(F.relax), P8)], exc="RootResolverError", mods=(), user=True),
+        ]
+
+    def glob_inv_outer(L):
+        c = L.fn
+        rem = tail(c.parts)
+        return [("collected-so-far", Implies(F.relax, L.t("matches") == GLS(sub_of(c.node), L.i, rem)))]
+
+    def glob_hints_outer(L):
+        c = L.fn
+        rem = tail(c.parts)
+        s_ = sub_of(c.node)
+        g = GL(s_[L.i], rem)
+        return d_GLS(s_, L.i, rem) + d_DD(GLS(s_, L.i, rem), g, IntVal(0))[:1] + [s_[L.i] != NONE]
+
+    def glob_inv_inner(L):
+        c = L.fn
+        rem = tail(c.parts)
+        s_ = sub_of(c.node)
+        sub = L.t("subnode")
+        g = GL(sub, rem)
+        acc0 = L.pre_v["matches"].t
+        return [("de-duplicated-so-far", Implies(F.relax, L.t("matches") == DD(acc0, g, L.i)))]
+
+    def glob_hints_inner(L):
+        c = L.fn
+        rem = tail(c.parts)
+        sub = L.t("subnode")
+        g = GL(sub, rem)
+        return d_DD(L.pre_v["matches"].t, g, L.i)
+    gl = qs(QSpec(reg, REL, "Resolver", "__glob", "method", [SELF, ("node", "ref"), ("parts", "strlist")],
+                  lambda c: [Clause("node-is-not-None", c.node != NONE)], gl_outcomes(lambda c: GL(c.node, c.parts)),
+                  loops={0: LoopSpec(glob_inv_outer, hints=glob_hints_outer, vars_kinds={"matches": "qseq"}),
+                         1: LoopSpec(glob_inv_inner, hints=glob_hints_inner, vars_kinds={"matches": "qseq"})},
+                  props=P8, hints=lambda c: d_GL(c.node, c.parts) + d_GLS(sub_of(c.node), IntVal(0), tail(c.parts))[:1] + MATCH_AX))
+    reg.methods[("Resolver", "_Resolver__glob")] = gl
+
+    def find_inv(L):
+        c = L.fn
+        return [("matches-so-far", Implies(F.relax, L.t("matches") == GLK(CH(c.node), L.i, c.pat, c.remainder)))]
+
+    def find_hints(L):
+        c = L.fn
+        k_ = CH(c.node)
+        return d_GLK(k_, L.i, c.pat, c.remainder) + [Implies(Length(c.remainder) == 0, GL(k_[L.i], c.remainder) == __import__("z3").Unit(k_[L.i])),
+                                                     k_[L.i] != NONE] + d_GL(k_[L.i], c.remainder)
+    fd = qs(QSpec(reg, REL, "Resolver", "__find", "method", [SELF, ("node", "ref"), ("pat", "str"), ("remainder", "strlist")],
+                  lambda c: [Clause("node-is-not-None", c.node != NONE)],
+                  gl_outcomes(lambda c: GLK(CH(c.node), Length(CH(c.node)), c.pat, c.remainder)),
+                  loops={0: LoopSpec(find_inv, hints=find_hints, vars_kinds={"matches": "qseq"})}, props=P8,
+                  hints=lambda c: d_GLK(CH(c.node), IntVal(0), c.pat, c.remainder)[:1] + MATCH_AX))
+    reg.methods[("Resolver", "_Resolver__find")] = fd
 
     def gstart(c):
         ps = start_parts(c)
@@ -348,8 +458,8 @@ def build_glob(reg, specs, qs, SELF, fields):
         return n0, p0, Or(missing, unknown)
     sp = qs(QSpec(reg, REL, "Resolver", "glob", "method", [SELF, ("node", "ref"), ("path", "str")],
                   lambda c: [Clause("node-is-not-None", c.node != NONE), Clause("separator-non-empty", Length(SEP(c.node)) > 0)], [
-        Outcome("result", "return", lambda c, S1, r: [Clause("the-matches-from-the-start-node-for-the-remaining-components",
-                                                                r.t == GLOBRES(gstart(c)[0], gstart(c)[1]))], res="qseq", mods=(),
+        Outcome("result", "return", lambda c, S1, r: [Clause("relaxed: the denotation of the remaining components from the start node",
+                                                                Implies(F.relax, r.t == GL(gstart(c)[0], gstart(c)[1])))], res="qseq", mods=(),
                 when=lambda c: Not(gstart(c)[2])),
         Outcome("empty:relax", "return", lambda c, S1, r: [Clause("is-empty", Length(r.t) == 0)], res="qseq", mods=(),
                 when=lambda c: And(gstart(c)[2], F.relax)),
